@@ -11,7 +11,6 @@ import (
 	sdkmath "cosmossdk.io/math"
 	codectypes "github.com/cosmos/cosmos-sdk/codec/types"
 	"github.com/cosmos/cosmos-sdk/types/bech32"
-	gogoproto "github.com/cosmos/gogoproto/proto"
 
 	subscriptiontypes "github.com/sentinel-official/hub/v12/x/subscription/types"
 )
@@ -60,7 +59,7 @@ func (g *Gen) fillField(fv reflect.Value, f field, depth int) {
 	case kString:
 		fv.SetString(g.str(depth))
 	case kBytes:
-		fv.SetBytes(g.bytes())
+		fv.SetBytes(g.bytes(depth))
 	case kInt:
 		fv.Set(reflect.ValueOf(g.sdkInt()))
 	case kDec:
@@ -191,7 +190,7 @@ func (g *Gen) enum(name string) int32 {
 		return math.MaxInt32
 	}
 	var vals []int32
-	for _, v := range gogoproto.EnumValueMap(name) {
+	for _, v := range enumValues(name) {
 		vals = append(vals, v)
 	}
 	sort.Slice(vals, func(i, j int) bool { return vals[i] < vals[j] })
@@ -241,6 +240,9 @@ func (g *Gen) bech32() string {
 
 func (g *Gen) str(depth int) string {
 	if g.mode == modeMax {
+		if depth >= 2 { // keep the maximal value of deep genesis types below ~20 kB
+			return g.ascii(48)
+		}
 		return g.ascii(300)
 	}
 	switch p := g.r.Intn(100); {
@@ -272,8 +274,11 @@ func (g *Gen) str(depth int) string {
 
 var bytesLens = []int{1, 20, 32, 64, 300}
 
-func (g *Gen) bytes() []byte {
+func (g *Gen) bytes(depth int) []byte {
 	if g.mode == modeMax {
+		if depth >= 2 {
+			return g.randBytes(64)
+		}
 		return g.randBytes(300)
 	}
 	switch p := g.r.Intn(100); {
@@ -456,7 +461,7 @@ func (g *Gen) any(depth int) *codectypes.Any {
 		// registered URL, valid bytes, no cached value
 		m := g.subscription(depth)
 		bz, _ := m.Marshal()
-		return &codectypes.Any{TypeUrl: "/" + gogoproto.MessageName(m), Value: bz}
+		return &codectypes.Any{TypeUrl: "/" + msgName(m), Value: bz}
 	case 1:
 		// registered URL, but bytes of the *other* kind or garbage
 		return &codectypes.Any{TypeUrl: "/sentinel.subscription.v2.NodeSubscription", Value: g.randBytes(1 + g.r.Intn(12))}
